@@ -5,6 +5,7 @@ import (
 	"strconv"
 	"strings"
 	"unicode"
+	"unicode/utf8"
 
 	"github.com/shopspring/decimal"
 
@@ -781,8 +782,9 @@ func parseTags(text string, basePos Position) []ast.Tag {
 			}
 		}
 
-		startCol := basePos.Column + 1 + tagStart
-		endCol := basePos.Column + 1 + tagEnd
+		// Columns count characters, tagStart and tagEnd are byte offsets into text.
+		startCol := basePos.Column + 1 + utf8.RuneCountInString(text[:tagStart])
+		endCol := basePos.Column + 1 + utf8.RuneCountInString(text[:tagEnd])
 
 		tags = append(tags, ast.Tag{
 			Name:  name,
